@@ -146,7 +146,7 @@ def c_op_lines(lib, op):
             decl.append("char %s[64]; memset(%s, '#', 63); %s[63] = 0;" % (v, v, v))
             args.append(v)
             post.append("vf_os(%d, %s, -1);" % (idx, v))
-        elif row == "S3inout":
+        elif row in ("S3inout", "S1inout"):
             decl.append("char %s[64] = %s;" % (v, xlib.c_str(ins[nm]["text"])))
             args.append(v)
             post.append("vf_os(%d, %s, -1);" % (idx, v))
@@ -316,11 +316,36 @@ def f_op_lines(lib, op):
             pre.append("%s(:) = repeat('#', %d)" % (v, outs[nm]["flen"]))
             args.append(v)
             post.append("call vf_os(%d, %s, len(%s, kind=C_INT))" % (idx, v, v))
-        elif row == "S3inout":
+        elif row in ("S3inout", "S1inout"):
             decl.append("character(len=%d) :: %s" % (ins[nm]["flen"], v))
             pre.append("%s(:) = %s" % (v, f_str(ins[nm]["text"])))
             args.append(v)
             post.append("call vf_os(%d, %s, len(%s, kind=C_INT))" % (idx, v, v))
+        elif row in ("V1in", "V1inout"):
+            vals = ins[nm]
+            decl.append("%s :: %s(%d)" % (f_decl(T), v, len(vals)))
+            if vals:
+                pre.append("%s = [%s]" % (v, ", ".join(f_lit(T, x) for x in vals)))
+            args.append(v)
+            if row == "V1inout":
+                post.append(obs_arr_f(T, idx, "%s(1:%d)" % (v, min(len(vals), len(outs[nm])))))
+        elif row == "V1out":
+            ext = outs[nm + "#extent"]
+            decl.append("%s :: %s(%d)" % (f_decl(T), v, ext))
+            args.append(v)
+            post.append(obs_arr_f(T, idx, "%s(1:%d)" % (v, min(ext, len(outs[nm])))))
+        elif row == "V1outalloc":
+            decl.append("%s, allocatable :: %s(:)" % (f_decl(T), v))
+            args.append(v)
+            post.append(obs_arr_f(T, idx, v))
+        elif row == "V1inoutalloc":
+            vals = ins[nm]
+            decl.append("%s, allocatable :: %s(:)" % (f_decl(T), v))
+            pre.append("allocate(%s(%d))" % (v, len(vals)))
+            if vals:
+                pre.append("%s = [%s]" % (v, ", ".join(f_lit(T, x) for x in vals)))
+            args.append(v)
+            post.append(obs_arr_f(T, idx, v))
         elif row in ("N3in", "N3inout"):
             vals = ins[nm]
             decl.append("%s :: %s(%d)" % (f_decl(T), v, len(vals)))
@@ -355,6 +380,9 @@ def f_op_lines(lib, op):
         if r["row"] in ("N", "B", "C"):
             decl.append("%s :: rv" % f_decl(r["T"]))
             post.insert(0, obs_f(r["T"], -1, "rv"))
+        elif r["row"] == "V":
+            decl.append("%s, allocatable :: rv(:)" % f_decl(r["T"]))
+            post.insert(0, obs_arr_f(r["T"], -1, "rv"))
         elif r["row"] in ("S1len", "S3len"):
             decl.append("character(len=%d) :: rv" % r["flen"])
             post.insert(0, "call vf_os(-1, rv, len(rv, kind=C_INT))")
